@@ -39,7 +39,7 @@ fn subset_mask(bits: &[u32], idx: u32) -> u64 {
 }
 
 fn reg() -> Reg {
-    Reg { f: [0x1000, 0x2000, 0x7000_0000, 0], kind: FdKind::Memfd }
+    Reg { f: [0x1000, 0x2000, 0x7000_0000, 0], kind: FdKind::Memfd, share: false }
 }
 
 /// every gated front-end operation with its gating bit
